@@ -1317,3 +1317,26 @@ func c01ProgSweep(r *vlib.Run, maxLen int, idx *uint64, f func(blob []byte, w *c
 	})
 }
 
+
+// c01ProgSweep4: programs of exactly 4 instructions over a sub-alphabet (indices
+// into c01ProgAlphabet), every bitmask (thorough tier).
+var c01Sub4 = []int{0, 1, 2, 3, 5, 8, 10, 12, 15, 17, 18, 21, 23, 25, 26, 28}
+
+func c01ProgSweep4(r *vlib.Run, sub []int, idx *uint64, f func(blob []byte, w *c01World, gas uint64, note string)) {
+	w := c01Worlds[2]
+	vlib.Sequences(len(sub), 4, func(s []int) {
+		var code []byte
+		for _, i := range s {
+			code = append(code, c01ProgAlphabet[sub[i]]...)
+		}
+		n := uint64(1) << uint(len(code))
+		for m := uint64(0); m < n; m++ {
+			*idx++
+			if !r.Mine(*idx) {
+				continue
+			}
+			r.Space(1)
+			f(c01ProgBlob(code, m), w, c01ProgGas, "prog4")
+		}
+	})
+}
